@@ -22,7 +22,26 @@ struct rrec {
   void set_done() && noexcept { ++g_rec[0].n_done; ++done_n; }
   friend inline_scheduler tag_invoke(tag_t<get_scheduler>, const rrec&) noexcept { return {}; }
 };
+// inline variant: the awaitable resumes the handle itself, on the suspending thread, before await_suspend returns true (legal: the
+// coroutine counts as suspended once await_suspend is entered).  With async stacks on, the awaiting frame must already be off the
+// current root at that moment, and the nested root pushed by the resumer must be popped again.
+static int inl_root_changed;
+struct handoff_inline {
+  bool await_ready() noexcept { return false; }
+  bool await_suspend(coro::coroutine_handle<> h) noexcept {
+#if !UNIFEX_NO_ASYNC_STACKS
+    auto* before = unifex::tryGetCurrentAsyncStackRoot();
+#endif
+    h.resume();
+#if !UNIFEX_NO_ASYNC_STACKS
+    if (unifex::tryGetCurrentAsyncStackRoot() != before) inl_root_changed = 1;
+#endif
+    return true; }
+  int await_resume() noexcept { return 7; }
+};
 static task<int> work() { int v = co_await handoff{}; co_return v + 1; }
+static task<int> work_inline() { int v = co_await handoff_inline{}; co_return v + 1; }
+static task<int> work_inline_nested() { int v = co_await work_inline(); co_return v; }
 using op_t = connect_result_t<task<int>, rrec>;
 static op_t* op;
 static void check_root() {
@@ -33,6 +52,13 @@ static void check_root() {
 extern "C" void h_setup() { op = new op_t(connect(work(), rrec{})); }
 extern "C" void h_start() { start(*op); check_root(); }
 extern "C" void h_resume() { vf_wait_until_ne(&published, 0); coro::coroutine_handle<>::from_address(g_h.load()).resume(); check_root(); }
+extern "C" void h_inline() {
+  op = new op_t(connect(vf_param(0) ? work_inline_nested() : work_inline(), rrec{})); start(*op); check_root();
+  VF_ASSERT(!inl_root_changed, "the async stack root seen by await_suspend changed across an inline resumption");
+  VF_ASSERT(done_n == 1 && g_rec[0].n_value == 1 && g_rec[0].v0 == 8, "task did not complete exactly once with the awaited value + 1");
+  VF_ASSERT(!root_bad, "a thread's async stack root was not restored (unbalanced async-stack bookkeeping)");
+  delete op; vf_check_leaks();
+}
 extern "C" void h_final() {
   VF_ASSERT(done_n == 1 && g_rec[0].n_value == 1 && g_rec[0].v0 == 8, "task did not complete exactly once with the awaited value + 1");
   VF_ASSERT(!root_bad, "a thread's async stack root was not restored (unbalanced async-stack bookkeeping)");
